@@ -216,6 +216,17 @@ class C02(Oracle):
 
 # --------------------------------------------------------------------------- C03
 
+def _exact_int(v):
+    """The label as an exact Python integer, or None if it is not an integer >= 1."""
+    try:
+        iv = int(v)
+    except Exception:
+        return None
+    if iv != v or iv < 1:
+        return None
+    return iv
+
+
 class C03(Oracle):
     """Shadow tree (from observed node constructions inside make_children calls) versus
     what the partition's public getters report."""
@@ -298,13 +309,15 @@ class C03(Oracle):
                     ctx.fail("C03", "child-list-foreign",
                              "cell %s: child list has %d entries, its own split created %d" % (s.name(), len(ch), len(s.children)))
                 K = len(s.children)
-                i = n.get_index()
+                i = _exact_int(n.get_index())
                 for j, c in enumerate(s.children):
                     if c.node.get_parent() is not n:
                         ctx.fail("C03", "parent-child-link", "child %s does not name %s as parent" % (c.name(), s.name()))
-                    if c.node.get_index() != K * (i - 1) + 1 + j:
+                    # exact integer arithmetic: a label held in a fixed-width integer type wraps silently
+                    ci = _exact_int(c.node.get_index())
+                    if i is None or ci is None or ci != K * (i - 1) + 1 + j:
                         ctx.fail("C03", "label-children", "child %d of cell index %r has index %r, expected %r" % (
-                            j, i, c.node.get_index(), K * (i - 1) + 1 + j))
+                            j, n.get_index(), c.node.get_index(), None if i is None else K * (i - 1) + 1 + j))
             if s.parent is None:
                 if s is ps.root:
                     if n.get_parent() is not None:
